@@ -178,6 +178,15 @@ class Paths:
         po.inline_new = False
         blocks = fn.body["blocks"]
         ev = []
+        single = self._single_assign(fn)
+
+        def res(tree, k, j):
+            """`base[_n]`: the index local is a single-assignment temporary; give it its value"""
+            def r(n):
+                if n[0] == "index" and isinstance(n[2], tuple) and n[2] and n[2][0] == "local" and n[2][1] in single:
+                    return ("index", n[1], res(po._local(n[2][1], (), k, j), k, j))
+                return None
+            return subst(tree, r) if any(x[0] == "index" for x in walk(tree)) else tree
         for k, b in enumerate(path):
             blk = blocks[b]
             for j, s in enumerate(blk["s"]):
@@ -189,13 +198,13 @@ class Paths:
                     if ptr_root(ptr)[0] not in ("param", "upvar", "unknown", "loop", "callind"):
                         continue  # store into a local through a local reference: seen by the origin trees
                     lv = po._apply(("deref", ptr), proj[d + 1:])
-                    ev.append(("write", lv, po._rvalue(s["rv"], k, j)))
+                    ev.append(("write", res(lv, k, j), res(po._rvalue(s["rv"], k, j), k, j)))
             t = blk["t"]
             if not t:
                 continue
             if t["k"] == "call":
                 n = len(blk["s"])
-                node = po._call(t, k)
+                node = res(po._call(t, k), k, n)
                 ext = False
                 for a in t["args"]:
                     pl = a.get("move") or a.get("copy")
@@ -212,7 +221,7 @@ class Paths:
                 ev.append(("call", node, ext, _ret_ty(fn.body, t)))
             elif t["k"] == "switch" and k + 1 < len(path):
                 nxt = path[k + 1]
-                d = po.operand(t["d"], k, po.end(k))
+                d = res(po.operand(t["d"], k, po.end(k)), k, po.end(k))
                 vals = [v for v, bb in t["targets"] if bb == nxt]
                 if vals and nxt != t["otherwise"]:
                     lit = tuple(vals)
@@ -221,8 +230,25 @@ class Paths:
                 else:
                     lit = ("not",) + tuple(v for v, _ in t["targets"])
                 ev.append(("cond", d, lit, self._discr_ty(fn, path, k, t)))
-        ev.append(("ret", po.return_origin()))
+        last = len(path) - 1
+        ev.append(("ret", res(po.return_origin(), last, po.end(last))))
         return ev
+
+    def _single_assign(self, fn):
+        key = ("sa", fn.id)
+        if key not in self._memo:
+            cnt = {}
+            for b in fn.body["blocks"]:
+                for s in b["s"]:
+                    if s["k"] == "assign" and not s["place"]["p"]:
+                        cnt[s["place"]["l"]] = cnt.get(s["place"]["l"], 0) + 1
+                    elif s["k"] == "assign":
+                        cnt[s["place"]["l"]] = cnt.get(s["place"]["l"], 0) + 2
+                t = b["t"]
+                if t and t["k"] == "call":
+                    cnt[t["dest"]["l"]] = cnt.get(t["dest"]["l"], 0) + 1
+            self._memo[key] = {l for l, c in cnt.items() if c == 1 and l > fn.body["argc"]}
+        return self._memo[key]
 
     def _discr_ty(self, fn, path, k, t):
         """type of the place whose discriminant the switch of block path[k] inspects (None: not a discriminant)"""
